@@ -38,21 +38,21 @@ ASSUMPTIONS = [
 REPORT_COUNTERS = ["cases", "controlled_schedules", "sweep_schedules", "double_preemption_schedules", "same_function_window_schedules", "random_schedules",
                    "raw_races", "scheduling_points", "switches_forced", "lock_handoffs", "thread_outcomes_compared",
                    "post_run_probe_vectors", "scn_first_call", "scn_miss_same", "scn_miss_diff", "scn_next_chain",
-                   "scn_dependent", "scn_kwonly", "scn_after_failed_build", "scn_callable_arg", "scn_hit_same", "calls_with_keywords", "programs_with_optional_positional", "programs_with_class_predicate_in_dependent_combination", "programs_racing_calls_made_before", "line_preempted_functions", "three_thread_schedules", "timeouts"]
+                   "scn_dependent", "scn_kwonly", "scn_after_failed_build", "scn_callable_arg", "scn_hit_same", "scn_first_next", "calls_with_keywords", "programs_with_optional_positional", "programs_with_class_predicate_in_dependent_combination", "programs_racing_calls_made_before", "line_preempted_functions", "three_thread_schedules", "timeouts"]
 
 SCENARIOS = ["first_call", "miss_same", "miss_diff", "next_chain", "dependent", "kwonly", "after_failed_build", "callable_arg",
-             "hit_same"]
+             "hit_same", "first_next"]
 STRATEGIES = ["sweep", "sweep", "double", "random", "raw"]
 
 
 def plan(tier):
-    n = 90 if tier == "quick" else 1800
+    n = 100 if tier == "quick" else 2000
     return {"cases": n, "params": {"sweep_stride": 6 if tier == "quick" else 1, "random": 20 if tier == "quick" else 120,
                                   "raw": 60 if tier == "quick" else 600},
             "timeout_s": 1800 if tier == "quick" else 14000,
             "min": {"controlled_schedules": 2_000, "sweep_schedules": 1_000, "random_schedules": 200, "raw_races": 500,
                     "switches_forced": 1_500, "scn_first_call": 5, "scn_miss_same": 5, "scn_miss_diff": 5,
-                    "scn_next_chain": 5, "scn_dependent": 5, "scn_kwonly": 5, "scn_after_failed_build": 5, "scn_callable_arg": 5, "scn_hit_same": 5, "calls_with_keywords": 4, "same_function_window_schedules": 200}}
+                    "scn_next_chain": 5, "scn_dependent": 5, "scn_kwonly": 5, "scn_after_failed_build": 5, "scn_callable_arg": 5, "scn_hit_same": 5, "scn_first_next": 5, "calls_with_keywords": 4, "same_function_window_schedules": 200}}
 
 
 class TVF(PVF):
@@ -113,10 +113,12 @@ def gen_case(rng, params, idx):
         strat = "sweep"     # a thread left waiting for ever is decided logically by the scheduler-aware lock only
     hier = gen.gen_hierarchy(rng, rng.randint(2, 4), attrs=False)
     dep = 0.45 if scn in ("dependent", "hit_same") else 0.1
-    kinds = ("leaf", "next", "next", "nextalt") if scn == "next_chain" else ("leaf", "leaf", "next", "rec")
+    kinds = ("leaf", "next", "next", "nextalt", "fnext", "fnext") if scn == "next_chain" else ("leaf", "leaf", "next", "rec")
+    if scn == "first_next":
+        kinds = ("fnext", "fnext", "leaf")       # racing the first continuations through f.next of a built, unused function
     # kwonly: methods with (optional) keyword-only parameters; the threads pass different sets of keywords
     pk = 0.8 if scn == "kwonly" else 0
-    spec = gen.gen_program(rng, hier=hier, npos=rng.choice([1, 1, 2]), nmeth=(3, 6), dep=dep, kinds=kinds,
+    spec = gen.gen_program(rng, hier=hier, npos=2 if scn == "first_next" else rng.choice([1, 1, 2]), nmeth=(3, 6), dep=dep, kinds=kinds,
                            kw=0.9 if scn == "kwonly" else 0.0, other_arity=0.0, catchall=0.8)
     if scn == "kwonly":
         for m in spec["methods"]:
@@ -139,10 +141,26 @@ def gen_case(rng, params, idx):
     vals = gen.values_for(hier)
     cg = gen.CallGen(spec, vals)
     c0 = cg.call(rng, p_kw=pk)
-    c1 = dict(c0) if scn in ("miss_same", "dependent") and rng.random() < 0.7 else cg.call(rng, p_kw=pk)
+    type_second = scn == "first_next" or (scn == "next_chain" and spec["npos"] == 2 and rng.random() < 0.6)
+    if scn == "first_next" and strat in ("sweep", "random", "raw"):
+        strat = "double"
+    if type_second:
+        # the second position takes classes (type[...] annotations): continuations look them up differently
+        hn = [s_["name"] for s_ in hier]
+        for m in spec["methods"]:
+            if len(m["pos"]) == 2:
+                m["pos"][1]["t"] = ["Ty", rng.choice(hn + ["object", "object"])]
+        cg = gen.CallGen(spec, vals)
+        c0 = cg.call(rng, p_kw=pk)
+        c0 = dict(c0, pos=[c0["pos"][0], ["c", rng.choice(hn)]])
+        spec["type_second_position"] = True
+    c1 = dict(c0) if scn in ("miss_same", "dependent", "first_next") and rng.random() < 0.7 else cg.call(rng, p_kw=pk)
     if scn == "kwonly" and rng.random() < 0.5:
         c1 = dict(c1, kw={})          # one thread passes keywords, the other none
     c2 = cg.call(rng, p_kw=pk)
+    if type_second:
+        c1 = dict(c1, pos=[c1["pos"][0], ["c", rng.choice(hn)]])
+        c2 = dict(c2, pos=[c2["pos"][0], ["c", rng.choice(hn)]])
     if scn == "callable_arg":
         # a method on Callable[[int], Any]: whether a function matches is worked out from the function's own annotations
         # at call time; the functions passed return a mapping class made for this run, whose generic origin the
@@ -164,6 +182,10 @@ def gen_case(rng, params, idx):
     spec.update(scenario=scn, strategy=strat, calls=[c0, c1, c2], warm=warm,
                 probes=[cg.call(rng, p_kw=pk) for _ in range(6)], seed=rng.randrange(1 << 30),
                 sweep_stride=params["sweep_stride"], nrandom=params["random"], nraw=params["raw"])
+    if type_second:
+        for c in spec["probes"] + [spec["warm"]]:
+            if len(c["pos"]) == 2:
+                c["pos"][1] = ["c", rng.choice(hn)]
     return spec
 
 
@@ -201,6 +223,8 @@ def _mk(spec, env):
         return prog
     if spec["scenario"] != "first_call":
         prog.ov.compile()
+        if spec["scenario"] == "first_next" or (spec.get("type_second_position") and spec["seed"] % 2):
+            return prog      # built, but no call yet: the first continuation (f.next) of this build is made in the race
         if spec["scenario"] in ("miss_same", "miss_diff", "next_chain", "dependent", "kwonly", "hit_same"):
             prog.vf.reset(())
             a = prog.args(spec["warm"])
@@ -388,11 +412,25 @@ def check_case(spec, res):
                             return
                     # windows: both threads stopped between two lines of the *same* state-writing function (one has
                     # tested, the other has half-written) - every such pair of points, up to a cap
-                    la, lb = s0.locs[first], s0.locs[1 - first]
+                    # (the second thread's points are taken from a run of its call *alone on a fresh twin*: in the race
+                    # it finds the state the first thread has not finished writing, as it would on an untouched function)
+                    la = s0.locs[first]
+                    p_solo = _mk(spec, env)
+                    _r, s_solo = sched.run_threads([_body(p_solo, calls[1 - first])], sched.RunAlone())
+                    p_solo.close()
+                    lb = s_solo.locs[0]
                     pairs = [(i + 1, j + 1) for i, a in enumerate(la) if a[1] == "line"
                              for j, b in enumerate(lb) if b[1] == "line" and b[0] == a[0]]
-                    if len(pairs) > spec.get("window_cap", 60):
-                        pairs = rng.sample(pairs, spec.get("window_cap", 60))
+                    # a sample stratified by function (small functions would otherwise drown among the pairs of big ones)
+                    byfn = {}
+                    for pr in pairs:
+                        byfn.setdefault(la[pr[0] - 1][0], []).append(pr)
+                    pairs = []
+                    for fn_ in sorted(byfn):
+                        ps = byfn[fn_]
+                        pairs += ps if len(ps) <= 36 else rng.sample(ps, 8)      # small functions: every pair
+                    if len(pairs) > spec.get("window_cap", 120):
+                        pairs = rng.sample(pairs, spec.get("window_cap", 120))
                     for k, k2 in pairs:
                         res.count("same_function_window_schedules")
                         ok, _ = controlled(sched.Sweep(k, first, k2), "window", {"policy": "double", "k": k, "k2": k2, "first": first,
